@@ -10,7 +10,7 @@
    [guard] is a computable mirror of [eval] that is true iff every such call
    actually performed has a receiver below that size. *)
 From Mpath.Model Require Import Base Dec Types GoVal Ast Lexer Parser Funcs Eval.
-From Mpath.Proofs Require Import NoPanic.
+From Mpath.Proofs Require Import NoPanic Termination.
 
 (** any AST (also ones no parser produces), any data (funcs, chans, nil
     pointers, structs with unexported fields, NaN), any fuel, any engines *)
@@ -49,6 +49,39 @@ Theorem C07_unguarded_refuted :
   ~ (forall uni eng fuel n cur orig m, eval uni eng fuel n cur orig <> Panic m).
 Proof. exact eval_unguarded_statement_is_false. Qed.
 Print Assumptions C07_unguarded_refuted.
+
+(** "…and always terminates": for a query without Select the fuel [depth n],
+    computable from the query alone, always suffices — whatever the data *)
+Theorem C07_terminates_no_select : forall uni eng n cur orig fuel,
+  no_select n = true -> (depth n <= fuel)%nat -> eval uni eng fuel n cur orig <> OutOfFuel.
+Proof. exact eval_fuel_sufficient_no_select. Qed.
+Print Assumptions C07_terminates_no_select.
+
+(** with Select, when every sub-query is a string literal (recursively):
+    an explicit bound k, again independent of the data *)
+Theorem C07_terminates_static_select : forall uni eng n k cur orig fuel,
+  static_select uni n k -> (k <= fuel)%nat -> eval uni eng fuel n cur orig <> OutOfFuel.
+Proof. exact eval_fuel_sufficient_static. Qed.
+Print Assumptions C07_terminates_static_select.
+
+(** parsed queries are at most 3·|text|+8 deep, so the default fuel suffices for every Select-free query of up to 1362 bytes *)
+Theorem C07_terminates_parsed : forall uni eng (s : str) t data,
+  parse_string uni s = Ok t -> no_select (NTop t) = true -> (length s <= 1362)%nat -> do_top uni eng t data <> OutOfFuel.
+Proof. exact do_top_terminates_short_no_select. Qed.
+Print Assumptions C07_terminates_parsed.
+
+(** REFUTED for a sub-query read from the data (recorded finding): the query
+    `$.AsArray().Select($.q)` on {"q": that same text} runs out of every fuel —
+    in Go it recurses until the stack overflows *)
+Theorem C07_select_self_reference_refuted :
+  let q := bs "$.AsArray().Select($.q)" in
+  exists t, parse_string uni_ascii q = Ok t /\
+    forall fuel,
+      eval uni_ascii no_engines fuel (NTop t)
+           (VMap KtStr EAny false [(VStr false (bs "q"), VStr false q)])
+           (VMap KtStr EAny false [(VStr false (bs "q"), VStr false q)]) = OutOfFuel.
+Proof. exact select_self_reference_diverges. Qed.
+Print Assumptions C07_select_self_reference_refuted.
 
 (** non-vacuity: the guard holds on a concrete composite query *)
 Example C07_example :
